@@ -12,8 +12,11 @@ from harness import devpool as P
 
 PROPERTY = "C37"
 RULE = ("generated add / remove / re-add / telegram histories (<=200 ops; plus every history of length <=4 (quick) / <=5 (thorough) "
-        "over a 3-device pool) on a real xknx.devices.Devices holding devices of every device class that share up to 8 group/"
-        "internal addresses (same address in several remote values of one device, passive addresses, all address notations); after "
+        "over a 3-device pool and over a composite pool {ClimateMode, Climate(mode=that ClimateMode), Switch}) on a real xknx.devices.Devices holding devices of every device class that share up to 8 group/"
+        "internal addresses (same address in several remote values of one device, passive addresses, all address notations; composite "
+        "devices - every class with a sub-device parameter, found by introspection - get a sub-device that is itself a pool member, "
+        "added/removed independently); after every op devices_by_group_address must equal the naive has_group_address / "
+        "group_addresses scan over the LIVE registered devices in registration order; after "
         "every op the registered devices and devices_by_group_address of EVERY pool address are compared by identity and order with "
         "the Lean model, and the Device.process calls made per telegram are recorded; non-trivial = distinct (pool, history) with at "
         "least one successful add, one successful remove or refused op, and one telegram that reached a device")
@@ -32,6 +35,27 @@ FIXED3 = [
     {"cls": "Sensor", "extra": 0, "ga": {"group_address_state": [[None, 1, 2], 6]}},
 ]
 ALPHA3 = ["a0", "a1", "a2", "r0", "r1", "r2", "t1", "tx"]
+# composite device: a Climate whose ClimateMode (pool member 0, the SAME object) is registered on its own as well
+FIXEDC = [
+    {"cls": "ClimateMode", "extra": 0, "ga": {"group_address_operation_mode": [[1], 0], "group_address_controller_status": [[2], 1]}},
+    {"cls": "Climate", "extra": 0, "ga": {"group_address_temperature": [[0], 0], "group_address_target_temperature": [[0], 2]},
+     "sub": {"mode": 0}},
+    {"cls": "Switch", "extra": 0, "ga": {"group_address": [[2], 0]}},
+]
+ALPHAC = ["a0", "a1", "a2", "r0", "r1", "r2", "t1", "t2"]
+COMPOSITES = P.composite_classes()
+
+
+def _attach_subdevices(rng, specs, naddr, density):
+    """give composite devices (Climate) a sub-device that is itself a pool member"""
+    for i, sp in enumerate(list(specs)):
+        for param, subcls in COMPOSITES.get(sp["cls"], {}).items():
+            if rng.random() < 0.75:
+                cand = [j for j, o in enumerate(specs) if o["cls"] == subcls and j != i]
+                if not cand or rng.random() < 0.2:
+                    specs.append(P.random_spec(rng, subcls, naddr, max(density, 0.4)))
+                    cand = [len(specs) - 1]
+                sp.setdefault("sub", {})[param] = rng.choice(cand)
 
 
 def _case(specs, ops, naddr, tgv=0):
@@ -45,6 +69,9 @@ def generate(rng, tier):
     for n in range(1, L + 1):
         for ops in itertools.product(ALPHA3, repeat=n):
             yield _case(FIXED3, list(ops), 3)
+    for n in range(1, L + 1):
+        for ops in itertools.product(ALPHAC, repeat=n):
+            yield _case(FIXEDC, list(ops), 3)
     # 2. generated histories over pools covering every device class
     ncases = 600 if thorough else 150
     for k in range(ncases):
@@ -59,6 +86,9 @@ def generate(rng, tier):
         rng.shuffle(names)
         density = rng.choice([0.15, 0.4, 0.8])
         specs = [P.random_spec(rng, c, naddr, density) for c in names]
+        if k % 2 == 0 and not any(sp["cls"] in COMPOSITES for sp in specs):
+            specs.append(P.random_spec(rng, rng.choice(sorted(COMPOSITES)), naddr, density))
+        _attach_subdevices(rng, specs, naddr, density)
         nops = rng.choice([5, 20, 60, 200]) if k % 4 else 200
         ops = []
         reg = set()
@@ -88,6 +118,7 @@ def generate(rng, tier):
     # 3. boundary: empty pool addresses, all devices on one address, add-all/remove-all/re-add-all in reverse
     for naddr in (1, 2):
         specs = [P.random_spec(rng, c, naddr, 0.9) for c in CLASSES]
+        _attach_subdevices(rng, specs, naddr, 0.9)
         nd = len(specs)
         ops = [f"a{i}" for i in range(nd)] + ["t0"] + [f"r{i}" for i in range(0, nd, 2)] + ["t0"] + \
               [f"a{i}" for i in reversed(range(nd))] + ["t0", "tx"] + [f"r{i}" for i in range(nd)] + ["t0"] + \
@@ -114,7 +145,7 @@ def _ids(lst):
 def run_impl(case):
     naddr = case["naddr"]
     xknx = XKNX()
-    devs = [P.build(xknx, s, f"d{i}") for i, s in enumerate(case["specs"])]
+    devs = P.build_pool(xknx, case["specs"])
     ident = {id(d): i for i, d in enumerate(devs)}
     amap = P.addr_index_map(len(P.ADDR_POOL))
     gas0 = [sorted(amap[a] for a in d.group_addresses()) for d in devs]
@@ -129,12 +160,23 @@ def run_impl(case):
         d.process = recorder(i)            # Device has no __slots__: shadows the method for this instance
     reg = xknx.devices
     naive = []                             # only used to tell the two ValueErrors of remove apart
+    gas_reg, changed = {}, []              # address set of a device when it was registered / devices whose set changed while registered
     toks = []
+    scans = []                             # naive scans over the LIVE devices (has_group_address / group_addresses), per op
+
+    def scan(g):
+        a = P.addr_obj(g)
+        return _ids([j for j in naive if devs[j].has_group_address(a)]) + "~" + _ids([j for j in naive if a in devs[j].group_addresses()])
+
     for k, op in enumerate(case["ops"]):
         if op[0] == "t":
             del calls[:]
-            reg.process(_telegram(None if op == "tx" else int(op[1:]), case.get("tgv", 0), k))
-            toks.append("c" + _ids(calls))
+            scans.append("-~-" if op == "tx" else scan(int(op[1:])))
+            try:
+                reg.process(_telegram(None if op == "tx" else int(op[1:]), case.get("tgv", 0), k))
+                toks.append("c" + _ids(calls))
+            except Exception as e:  # noqa: BLE001
+                toks.append(f"cother:{type(e).__name__}")
             continue
         i = int(op[1:])
         d = devs[i]
@@ -142,7 +184,10 @@ def run_impl(case):
             if op[0] == "a":
                 reg.async_add(d)
                 naive.append(i)
+                gas_reg[i] = sorted(amap[a] for a in d.group_addresses())
             else:
+                if i in naive and gas_reg.get(i) != sorted(amap[a] for a in d.group_addresses()):
+                    changed.append(i)
                 reg.async_remove(d)
                 naive.remove(i)
             t = "ok"
@@ -164,30 +209,35 @@ def run_impl(case):
         if isinstance(idx, dict) and any(not v for v in idx.values()):
             extra += "!empty-index-entry"
         toks.append(f"{t}/{state}/{by}{extra}")
-    gas1 = [sorted(amap[a] for a in d.group_addresses()) for d in devs]
+        scans.append(";".join(scan(g) for g in range(naddr)))
+    changed += [i for i in naive if gas_reg.get(i) != sorted(amap[a] for a in devs[i].group_addresses())]
     pool = ";".join(f"{i}:{'.'.join(map(str, g)) if g else '-'}" for i, g in enumerate(gas0))
-    out = ",".join(toks)
-    if gas1 != gas0:
-        out += " !addresses-changed"
-    return {"out": out, "line": f"devs run {pool} {naddr} {','.join(case['ops'])}", "expect": out.split(" ")[0],
-            "gas": gas0}
+    main = ",".join(toks)
+    out = main + " #" + ",".join(scans)
+    if changed:
+        out += " !addresses-changed:" + _ids(sorted(set(changed)))
+    return {"out": out, "line": f"devs run {pool} {naddr} {','.join(case['ops'])}", "expect": main, "gas": gas0}
 
 
 def oracle(case, out):
     """The property on the implementation's behaviour, against a naive scan — independent of the Lean model."""
-    if " !addresses-changed" in out:
-        return "Device.group_addresses() changed during the history"
     specs = case["specs"]
-    uses = [P.spec_addresses(s) for s in specs]       # the addresses each device was configured with
+    uses = [P.spec_addresses(s, specs) for s in specs]  # the addresses each device (incl. its sub-devices) was configured with
     naddr = case["naddr"]
     registered = []
-    toks = out.split(" ")[0].split(",")
-    if len(toks) != len(case["ops"]):
+    parts = out.split(" ")
+    toks = parts[0].split(",")
+    scans = parts[1][1:].split(",") if len(parts) > 1 and parts[1].startswith("#") else None
+    if len(toks) != len(case["ops"]) or scans is None or len(scans) != len(toks):
         return "trace length differs from history length"
-    for k, (op, tok) in enumerate(zip(case["ops"], toks)):
+    for k, (op, tok, sc) in enumerate(zip(case["ops"], toks, scans)):
         where = f"op #{k} {op}"
         if op[0] == "t":
             exp = [] if op == "tx" else [d for d in registered if int(op[1:]) in uses[d]]
+            live_has, live_gas = sc.split("~")
+            if tok != "c" + live_has or tok != "c" + live_gas:
+                return (f"{where}: telegram processed by devices [{tok[1:]}], naive scan of the registered devices says "
+                        f"[{live_has}] (has_group_address) / [{live_gas}] (group_addresses)")
             if tok != "c" + _ids(exp):
                 return f"{where}: telegram processed by devices [{tok[1:]}], naive scan of registered devices says [{_ids(exp)}]"
             continue
@@ -213,20 +263,29 @@ def oracle(case, out):
             return f"{where}: len()/in disagree with iteration, or an empty index entry remains ({by})"
         if state != _ids(registered):
             return f"{where}: registered devices are [{state}], expected [{_ids(registered)}] (an error must change nothing)"
+        live = sc.split(";")
+        for g, (b, l) in enumerate(zip(by.split(";"), live)):
+            lh, lg = l.split("~")
+            if b != lh or b != lg:
+                return (f"{where}: devices_by_group_address({P.ADDR_POOL[g]}) = [{b}], naive scan of the registered devices = "
+                        f"[{lh}] (has_group_address) / [{lg}] (group_addresses)")
         exp = ";".join(_ids([d for d in registered if g in uses[d]]) for g in range(naddr))
         if by != exp:
             return f"{where}: devices_by_group_address = {by}, naive scan in registration order = {exp}"
+    if " !addresses-changed" in out:
+        return ("group_addresses() of device(s) " + out.split("!addresses-changed:")[1] +
+                " changed while registered (the registry index is built from it at registration)")
     return None
 
 
 def nontrivial(case, out):
-    toks = out.split(",")
+    toks = out.split(" ")[0].split(",")
     return any(t.startswith("ok/") for t in toks) and any(t.startswith("c") and t != "c-" for t in toks) and \
         (any(t.startswith("E") for t in toks) or any(o[0] == "r" for o in case["ops"]))
 
 
 def outcome_class(out):
-    toks = out.split(",")
+    toks = out.split(" ")[0].split(",")
     if any(t.startswith("other") for t in toks):
         return "unexpected-exception"
     e = sum(t.startswith("E") for t in toks)
@@ -238,11 +297,16 @@ def finding_key(case, msg):
     return " ".join(case["ops"][:12])
 
 
+def _kind(msg):
+    return "addresses-changed" if "changed while registered" in msg else "dispatch"
+
+
 def shrink(case, msg):
     def fails(c):
         try:
             r = run_impl(c)
-            return oracle(c, r["out"]) is not None
+            m = oracle(c, r["out"])
+            return m is not None and _kind(m) == _kind(msg)
         except Exception:  # noqa: BLE001
             return False
     cur = dict(case)
